@@ -38,12 +38,20 @@
    (C13_growth_hypothesis_needed: grow_needed := fun _ _ => true; deadlock freedom, no lost wake-up
    and bounded critical sections all hold for that instance): a finding about the generality of the
    model, not about the code, whose policy satisfies ghyp (C13_termination_instance).
-   Still not a theorem: that every FAIR infinite schedule finishes every call (fairness over
-   infinite schedules is not formalised).
+   C13_fair_termination (proofs/X_fair.v): EVERY FAIR infinite schedule finishes every call.  An
+   infinite schedule is sigma : nat -> nat; a step of a blocked or finished thread is a no-op;
+   fair ths sigma := every thread of ths is scheduled infinitely often (plain weak fairness, no
+   modulus, no classical axiom).  From every reachable state, for every fair sigma, some finite
+   prefix leaves every thread of ths idle with nothing left to do -- whatever resizes, Clears and
+   lock hand-overs happen on the way (measure: per-thread remaining steps against caps that are
+   constants of the run, plus a bound SBf on the resizes that can still start, which never
+   increases and drops at every won CAS on the resizing flag).  Needs ghyp as above
+   (C13_fair_needs_ghyp) and that the probe returns each slot at most once (proved for the SWAR
+   probe of the extracted machine: C13_fair_termination_instance).
 *)
 From CacheV Require Import Base SpecMap XMachine TabExec Exec XExec.
 From CacheV.proofs Require Import X_basic X_inv X_c13 X_inst.
-From CacheV.proofs Require X_term.
+From CacheV.proofs Require X_term X_fair.
 From Coq Require Import NArith.
 
 
@@ -165,3 +173,35 @@ Definition C13_growth_hypothesis_needed := X_term.solo_writer_grows_forever.
 Print Assumptions C13_solo_nonvacuous.
 Print Assumptions C13_can_finish_nonvacuous.
 Print Assumptions C13_growth_hypothesis_needed.
+
+(* ---------------- every fair schedule finishes every call ---------------- *)
+
+Theorem C13_fair_termination :
+  forall (K V : Type) (eqd : forall a b : K, {a = b} + {a <> b}) hash idx tag nslots seeds g sh probe nstripes minlen grow_only,
+    xhyps idx nstripes minlen -> X_term.ghyp g -> (forall tags tg, length (probe tags tg) <= length tags) ->
+    forall len0 todo sched ths, 0 < len0 -> NoDup ths -> (forall u, ~ In u ths -> todo u = []) ->
+    let s := fst (@xrun K V eqd hash idx tag nslots seeds g sh probe nstripes minlen grow_only (xinit nslots seeds nstripes len0 todo) sched) in
+    forall sigma : nat -> nat,
+      (forall n t, In t ths -> exists m, n <= m /\ sigma m = t) ->            (* weak fairness *)
+      exists n, forall t, In t ths ->
+        let s' := @X_fair.run_to K V eqd hash idx tag nslots seeds g sh probe nstripes minlen grow_only sigma n s in
+        g_pc s' t = PIdle /\ g_todo s' t = [].
+Proof. exact @X_fair.fair_termination. Qed.
+Print Assumptions C13_fair_termination.
+
+(* run_to is the run along the first n choices of sigma *)
+Theorem C13_run_to_is_xrun :
+  forall (K V : Type) (eqd : forall a b : K, {a = b} + {a <> b}) hash idx tag nslots seeds g sh probe nstripes minlen grow_only sigma n s,
+    @X_fair.run_to K V eqd hash idx tag nslots seeds g sh probe nstripes minlen grow_only sigma n s
+    = fst (@xrun K V eqd hash idx tag nslots seeds g sh probe nstripes minlen grow_only s (map sigma (seq 0 n))).
+Proof. exact @X_fair.run_to_xrun. Qed.
+Print Assumptions C13_run_to_is_xrun.
+
+Definition C13_fair_termination_instance := X_fair.x_machine_fair_termination.
+Definition C13_fair_nonvacuous := X_fair.fair_nonvacuous.
+Definition C13_fair_needs_ghyp := X_fair.fair_needs_ghyp.
+Definition C13_stale_grow_after_clear := X_fair.stale_grow_after_clear.
+Print Assumptions C13_fair_termination_instance.
+Print Assumptions C13_fair_nonvacuous.
+Print Assumptions C13_fair_needs_ghyp.
+Print Assumptions C13_stale_grow_after_clear.
